@@ -815,7 +815,7 @@ func checkHeaderWriterGuards(c *Ctx, ev *tmpl.Evaluator) {
 		if l == nil || l.Tree.Asset != "server/responses.gotmpl" {
 			continue
 		}
-		for k, oc := range l.Find(regexp.MustCompile(`rw\.Header\(\)\.Set\(`)) {
+		for k, oc := range l.Find(regexp.MustCompile(`\b\w+\.Header\(\)\.Set\(`)) {
 			prev := strings.TrimRight(l.Text[:oc.Start], " \t\n")
 			if i := strings.LastIndexByte(prev, '\n'); i >= 0 {
 				prev = prev[i+1:]
